@@ -20,6 +20,7 @@ fn classify(values: &[V], obs: &mut Obs) {
     let mut bool_gt1 = false;
     let mut nested = false;
     let mut wide = false;
+    let mut chain = false;
     for v in values {
         ra::walk(v, &mut |n| match n {
             V::Obj(p) => {
@@ -46,6 +47,13 @@ fn classify(values: &[V], obs: &mut Obs) {
                     wide = true;
                 }
             }
+            V::Deep { depth, .. } => {
+                container = true;
+                nested = true;
+                if *depth >= 64 {
+                    chain = true;
+                }
+            }
             V::Bool(b) => {
                 if *b > 1 {
                     bool_gt1 = true;
@@ -57,17 +65,31 @@ fn classify(values: &[V], obs: &mut Obs) {
     obs.class_if(container, "container");
     obs.class_if(nested, "nested");
     obs.class_if(wide, "container-with-1024-or-more-children");
+    obs.class_if(chain, "chain-of-64-or-more-nested-containers");
     obs.class_if(ecma_odd, "ecma-count-differs-from-size");
     obs.class_if(bool_gt1, "boolean-byte-above-1");
     obs.nontrivial_if(container || ecma_odd || bool_gt1);
 }
+
+/// Values nested deeper than this are outside what the library promises to handle (documented on
+/// `Amf0DeserializationError::MaxNestingDepthExceeded`): a top-level value is at 0.
+const LIB_NESTING_LIMIT: usize = 128;
 
 /// Encoder direction: the library's bytes must be exactly a specification encoding of the input.
 fn eval_encoder(case: &Case) -> Verdict {
     let input = ra::to_lib_list(&case.values);
     let bytes = match rml_amf0::serialize(&input) {
         Ok(b) => b,
-        Err(e) => vfail!("encoder refused a value AMF0 can express: {:?}; input {}", e, ra::brief(&input)),
+        Err(e) => {
+            // nesting beyond the library's documented limit of 128 may be refused (the decoder
+            // refuses it too); everything else AMF0 can express must be encoded
+            if case.values.iter().any(|v| ra::deepest(v) > LIB_NESTING_LIMIT) {
+                let mut obs = Obs::new();
+                obs.class("nested-deeper-than-128-refused-by-encoder");
+                return Verdict::Pass(obs);
+            }
+            vfail!("encoder refused a value AMF0 can express: {:?}; input {}", e, ra::brief(&input))
+        }
     };
     let parsed = match ra::dec_strict(&bytes) {
         Ok(p) => p,
@@ -121,6 +143,12 @@ fn eval_decoder(case: &Case) -> Verdict {
     let total = bytes.len() as u64;
     let mut cursor = Cursor::new(bytes);
     match rml_amf0::deserialize(&mut cursor) {
+        Err(rml_amf0::Amf0DeserializationError::MaxNestingDepthExceeded) if case.values.iter().any(|v| ra::deepest(v) > LIB_NESTING_LIMIT) => {
+            // the library documents a nesting limit of 128; beyond it a refusal is what it promises
+            let mut obs = Obs::new();
+            obs.class("nested-deeper-than-128-refused-by-decoder");
+            return Verdict::Pass(obs);
+        }
         Err(e) => vfail!("decoder rejects a conformant encoding: {:?}; tree {:?}", e, truncate(&format!("{:?}", case.values), 500)),
         Ok(out) => {
             vensure!(cursor.position() == total, "decoder stopped at byte {} of {}", cursor.position(), total);
@@ -251,8 +279,8 @@ pub fn spec() -> PropSpec {
             "RefAmf0 is trusted as the transcription of the AMF0 specification; it self-checks enc/dec inversion on every decoder-direction case",
         ],
         checks: vec![
-            PropCheck::new("encoder", |_| gen::amf_values(AmfCfg::LIB, 6).prop_map(|values| Case { values }).boxed(), 100_000, 3_000_000, eval_encoder),
-            PropCheck::new("decoder", |_| gen::amf_values(AmfCfg::WIRE, 6).prop_map(|values| Case { values }).boxed(), 100_000, 3_000_000, eval_decoder),
+            PropCheck::new("encoder", |_| gen::amf_values(AmfCfg::LIB_DEEP, 6).prop_map(|values| Case { values }).boxed(), 100_000, 3_000_000, eval_encoder),
+            PropCheck::new("decoder", |_| gen::amf_values(AmfCfg::WIRE_DEEP, 6).prop_map(|values| Case { values }).boxed(), 100_000, 3_000_000, eval_decoder),
             EnumCheck::new("markers", true, |_| {
                 let mut v = Vec::new();
                 for marker in 0..=255u8 {
